@@ -302,6 +302,7 @@ class Emitted:
         self.n_loops = 0
         self.loop_sig = []      # loop headers of the SOURCE function (whitespace-normalised), for the annotation-fit test
         self.callees = []       # names called in the SOURCE function, for the same test
+        self.src_asserts = []   # argument texts of the runtime assertions of the SOURCE function
         self.rules = []
         self.clauses = []       # list of (kind, text)
 
@@ -364,7 +365,10 @@ def emit_fn(spec, mode, probe=False):
         em.loop_sig = [' '.join(body[a:b].split()) for (a, b) in loop_headers(body)]
     except GenError:
         em.loop_sig = ['?']
-    em.callees = sorted(set(re.findall(r'([A-Za-z_]\w*(?:::[A-Za-z_]\w*)*!?)\s*\(', mask(body))) - set(['if', 'while', 'for', 'match', 'return', 'in', 'loop', 'let', 'mut']))
+    em.callees = sorted(c for c in set(re.findall(r'([A-Za-z_]\w*(?:::[A-Za-z_]\w*)*!?)\s*\(', mask(body)))
+                        if c not in ('if', 'while', 'for', 'match', 'return', 'in', 'loop', 'let', 'mut', 'Self')
+                        and not re.match(r'^[A-Z]\w*$', c))      # Some(..), Ok(..), tuple-struct constructors are not calls
+    em.src_asserts = sorted(set(' '.join(a.split()) for a in re.findall(r'\b(?:debug_)?assert(?:_eq|_ne)?!\s*\(((?:[^()]|\([^()]*\))*)\)', body)))
     mut_self = False
     if re.search(r'\(\s*mut\s+self\b', mask(sig)):
         # R13: `mut self` receiver (unsupported by Verus) -> `self` + a mutable local copy used by the body
